@@ -18,7 +18,10 @@ fuzz_target!(|data: &[u8]| {
         _ => raw % 140,
     };
     let signo = if data[1] & 1 == 0 { (w(0).rem_euclid(64)) + 1 } else { w(0) };
-    let case = C17Case::Synth { signo, code, pid: w(8), uid: w(12) as u32, fill: data[16..].iter().cloned().take(100).collect() };
+    // boundary identities: zero pid / uid
+    let pid = if data[2] & 7 == 0 { 0 } else { w(8) };
+    let uid = if data[3] & 7 == 0 { 0 } else { w(12) as u32 };
+    let case = C17Case::Synth { signo, code, pid, uid, fill: data[16..].iter().cloned().take(100).collect() };
     let rep = sigverif::c17::run_case(&case);
     common::judge("C17", &["C17/"], serde_json::to_value(&case).unwrap(), &rep);
 });
